@@ -2,7 +2,7 @@
 import os
 
 from . import core
-from .rules import stdio, cert, mark, exact, optstore, inval, idx, atomic, own, tokens, idxclass, copy, pair, structfree, buf, div, counter, sentinel, appendinit, verdict, basismap, zerotol, escape, lenclass, djsym, ndet, useb4check, norms, opencheck, shell, esolver, errlost, rescan, certdep, neverset, fmt, defaults, scratch
+from .rules import stdio, cert, mark, exact, optstore, inval, idx, atomic, own, tokens, idxclass, copy, pair, structfree, buf, div, counter, sentinel, appendinit, verdict, basismap, zerotol, escape, lenclass, djsym, ndet, useb4check, norms, opencheck, shell, esolver, errlost, rescan, certdep, neverset, fmt, defaults, scratch, fullscan
 from .effects import Effects
 
 FIX = os.path.join(os.path.dirname(os.path.abspath(__file__)), "fixtures")
@@ -287,7 +287,8 @@ PROPS = {
         "rules": [lambda prog, tier: own.run(prog), lambda prog, tier: tokens.run_basis(prog),
                   lambda prog, tier: tokens.run_sections(prog, "mpq_ILLlib_writebasis", {"ENDATA"}, token_ok=lambda t: t.isupper()),
                   lambda prog, tier: _only(inval.run_fok(prog), "basis installed"),
-                  lambda prog, tier: idxclass.run(prog, scope_units=("lib_mpq.c", "qsopt_mpq.c"))],
+                  lambda prog, tier: idxclass.run(prog, scope_units=("lib_mpq.c", "qsopt_mpq.c")),
+                  lambda prog, tier: fullscan.run(prog, ["mpq_ILLlib_writebasis"], ("lib_mpq.c",), floor=2)],
         "technique": "who-may-write ownership rule over interprocedural write-effect summaries; table agreement of type-resolved string "
                      "literals (writer format literals vs reader strcmp operands / section tables); must-follow dataflow for factorok",
         "explanation": "Decides three structural clauses of C14: (R-OWN) no public function outside the frozen owner table may write or "
@@ -356,7 +357,8 @@ PROPS = {
                   lambda prog, tier: tokens.run_lp(prog),
                   lambda prog, tier: tokens.run_sections(prog, "mpq_ILLwrite_lp", {"End"}, print_funcs={"mpq_ILLprint_report": 1}, token_ok=lambda t: t[0].isupper()),
                   lambda prog, tier: idxclass.run(prog, scope_units=("lp_mpq.c", "write_lp_mpq.c", "rawlp_mpq.c")),
-                  lambda prog, tier: sentinel.run(prog), lambda prog, tier: rescan.run(prog), lambda prog, tier: defaults.run(prog)],
+                  lambda prog, tier: sentinel.run(prog), lambda prog, tier: rescan.run(prog), lambda prog, tier: defaults.run(prog),
+                  lambda prog, tier: fullscan.run(prog, ["mpq_ILLwrite_lp"], ("lp_mpq.c", "write_lp_mpq.c"), floor=4)],
         "technique": "lossy-conversion sink census over the writer and reader call-graph closures; writer/reader agreement of type-resolved "
                      "keyword literals; must-pass analysis of section emitters before the terminator; index-space typing of the writer",
         "explanation": "Decides four structural clauses of the LP round trip: (R-EXACT) on every path of QSwrite_prob / QSreport_prob and of "
@@ -377,7 +379,8 @@ PROPS = {
                   lambda prog, tier: tokens.run_mps(prog),
                   lambda prog, tier: tokens.run_sections(prog, "mpq_ILLwrite_mps", {"ENDATA"}, print_funcs={"mpq_ILLprint_report": 1}, token_ok=lambda t: t.isupper() and len(t) >= 2),
                   lambda prog, tier: idxclass.run(prog, scope_units=("mps_mpq.c", "rawlp_mpq.c")),
-                  lambda prog, tier: sentinel.run(prog), lambda prog, tier: appendinit.run(prog), lambda prog, tier: rescan.run(prog), lambda prog, tier: defaults.run(prog)],
+                  lambda prog, tier: sentinel.run(prog), lambda prog, tier: appendinit.run(prog), lambda prog, tier: rescan.run(prog), lambda prog, tier: defaults.run(prog),
+                  lambda prog, tier: fullscan.run(prog, ["mpq_ILLwrite_mps"], ("mps_mpq.c",), floor=6)],
         "technique": "lossy-conversion sink census over writer/reader closures; table agreement (section names, bound mnemonics, row-type "
                      "letters, markers) between the MPS writer's format literals and the reader's tables / switch cases / strcmp operands; "
                      "must-pass analysis of section emitters before ENDATA; index-space typing",
@@ -542,7 +545,8 @@ PROPS = {
                   lambda prog, tier: idxclass.run(prog, scope_units=("qsopt_ex/exact.c",), rule="R-IDXCLASS"),
                   lambda prog, tier: buf.run(prog, scope_units=("esolver/",), floor=2),
                   lambda prog, tier: fmt.run(prog, scope=lambda f: f.unit.startswith("esolver/") or f.unit.endswith("qsopt_ex/exact.c"), floor=40),
-                  lambda prog, tier: pair.run(prog, heap=True, units=("esolver/",), floors=(1, 3))],
+                  lambda prog, tier: pair.run(prog, heap=True, units=("esolver/",), floors=(1, 3)),
+                  lambda prog, tier: fullscan.run(prog, ["QSexact_print_sol"], ("qsopt_ex/exact.c",), floor=4)],
         "technique": "path-sensitive typestate dataflow over main's CFG for the exit status (error recorded => non-zero return); "
                      "NULL-test dominance for file handles; table agreement between status constants and the words written; sibling "
                      "agreement of the four non-zero filters of QSexact_print_sol; lossy-conversion sink census; index-space typing; "
